@@ -4,6 +4,7 @@ import PC.Drv.RevDeps
 import PC.Drv.Sup
 import PC.Drv.Output
 import PC.Drv.Env
+import PC.Drv.Replica
 /-! `pcdriver <component>`: reads protocol lines on stdin, prints `model ||| verdict` per line. -/
 open PC.Drv
 
@@ -19,4 +20,6 @@ def main (args : List String) : IO UInt32 := do
   | ["sup"] => loop PC.Drv.Sup.step stdin stdout {}; return 0
   | ["output"] => loop PC.Drv.Output.step stdin stdout (); return 0
   | ["env"] => loop PC.Drv.Env.step stdin stdout (); return 0
+  | ["replica"] => loop PC.Drv.Replica.replicaStep stdin stdout (); return 0
+  | ["scale"] => loop PC.Drv.Replica.scaleStep stdin stdout {}; return 0
   | _ => IO.eprintln "usage: pcdriver <component>"; return 2
